@@ -31,6 +31,14 @@ class Violation(BaseException):
         self.label, self.values, self.detail = label, values, detail
 
 
+class _Candidate(BaseException):
+    """A sat model for a violated assertion; reproduced on plain values by explore() after the harness has unwound
+    (the harness may be inside a running event loop, where a nested replay cannot run)."""
+
+    def __init__(self, label, values):
+        self.label, self.values = label, values
+
+
 class HarnessError(BaseException):
     """Encoding error: never a pass, never a violation."""
 
@@ -1193,13 +1201,7 @@ class Explorer(BaseExplorer):
         self.stats["checks_sat"] += 1
         values = self.values_of(m)
         if self.replay_fn is not None:
-            rep = self.reproduce(values, label)
-            if rep is None:
-                self.stats["unreproduced"] += 1
-                self.unreproduced.append({"label": label, "values": jsonable(values)})
-                self.inconclusive.append("unreproduced:" + label)
-                return None
-            raise Violation(label, rep["values"], rep.get("detail"))
+            raise _Candidate(label, values)
         raise Violation(label, jsonable(values))
 
     def values_of(self, m):
@@ -1330,6 +1332,14 @@ class Explorer(BaseExplorer):
             except Violation as v:
                 self.violation = v
                 return "violation", [(p, nt) for (p, _c, _m, nt) in stack]
+            except _Candidate as c:
+                rep = self.reproduce(c.values, c.label)
+                if rep is not None:
+                    self.violation = Violation(c.label, rep["values"], rep.get("detail"))
+                    return "violation", [(p, nt) for (p, _c, _m, nt) in stack]
+                self.stats["unreproduced"] += 1
+                self.unreproduced.append({"label": c.label, "values": jsonable(c.values)})
+                self.inconclusive.append("unreproduced:" + c.label)
             except HarnessError:
                 raise
             except Exception as e:  # noqa: BLE001 - escaped the harness: real defect or encoding error
